@@ -112,7 +112,7 @@ JSON_RULE = ("grammar-generated documents of the nine GeoJSON types and the Circ
 PROPS["C07"] = dict(streams=["C07"], kernel_cases=100, timeout=600, classify=classes.classify_c07, rule=JSON_RULE + "; compared with the Coq model of Parse and with the classification of C07 (well-formed -> accepted with exactly this tree; listed defect -> rejected)",
     trusted_base=JSON_TB, assumptions=["numbers with dyadic values on the case's grid; other documents are counted as outside-model-domain-skipped"], partial=["the decoding theorem carries the hypothesis nomix (documents of the known mixed-dimension finding excluded; refutation witness in Properties/C07.v)", "theorems are at tree level: invalid JSON, trailing bytes and whitespace are decided per case"])
 PROPS["C06"] = dict(streams=["C06"], kernel_cases=100, timeout=600, classify=classes.classify_c06, rule=JSON_RULE + "; for every accepted text the implementation re-parses its own JSON output under the same options: accepted again, same kind tree, byte-identical JSON, identical observables/predicate answers; JSON()/String()/MarshalJSON()/AppendJSON agree; output bytes compared with the Coq model of the writers",
-    trusted_base=JSON_TB, assumptions=["numbers finite"], partial=["the theorem is at tree level: tokenizer and strconv (text <-> tree) are outside it and tied per case", "the information clause (output carries the input's information) is decided per case, with kernel-checked pieces (member scan)"])
+    trusted_base=JSON_TB, assumptions=["numbers finite"], partial=["the theorem is at tree level: tokenizer and strconv (text <-> tree) are outside it and tied per case", "the information clause is proved piecewise (foreign members kept and written in order, z/m values of the declared dimensionality for lines and polygons, x,y / kind tree / child order via C07) and additionally decided per case by an independent tokenizer comparison"])
 PROPS["C08"] = dict(streams=["C08"], kernel_cases=100, timeout=600, rule=JSON_RULE + "; every accepted text is re-parsed under 7 index-option variants (child threshold 0/1/3/64, geometry threshold 0/1/64, both kinds), 3 representation-option variants and with RequireValid: JSON, rect, empty, valid, point count and 30 predicate answers against 6 probe objects must be identical; Circle still recognised; RequireValid rejects exactly when a nested standard object is invalid",
     trusted_base=JSON_TB, assumptions=[], partial=[])
 PROPS["C17"] = dict(streams=["C17", "C17p"], kernel_cases=150, timeout=600,
